@@ -615,6 +615,9 @@ SEEDED_MORE = [
     ("C16", "C16Gen", "src/concat/mod.rs", "            last_bytes = [17u8, log_window_size | 64 | 128];", "            last_bytes = [17u8, log_window_size | 64];", False),
     ("C16", "C16Gen", "src/concat/mod.rs", "        if self.num_bytes_read == 4 && (127 & self.bytes_so_far[0]) != 17 {\n            return true;\n        }\n        self.num_bytes_read == 5", "        let first = self.bytes_so_far[0];\n        if self.num_bytes_read == 4 && (127 & first) != 17 {\n            return true;\n        }\n        self.num_bytes_read == 5", True),
     ("C16", "C16Gen", "src/concat/mod.rs", "        last_bytes |= 3 << bit_end;", "        last_bytes |= 1 << bit_end;", False),
+    # C14Gen
+    ("C18v", "C14Gen", "src/enc/command.rs", "let ret = (((offset + dextra) << n_postfix) + lcode + n_direct + 1) as isize;", "let ret = (((offset + dextra) << n_postfix) + lcode + n_direct + 2) as isize;", False),
+    ("C18v", "C14Gen", "src/enc/command.rs", "        let ret = (((offset + dextra) << n_postfix) + lcode + n_direct + 1) as isize;\n        //assert!(ret != 0);\n        (0, ret)", "        let answer = (((offset + dextra) << n_postfix) + lcode + n_direct + 1) as isize;\n        (0, answer)", True),
     # C18vGen
     ("C18v", "C18vGen", "src/enc/command.rs", "let copylen_code_delta = (copylen_code as i32 - copylen as i32) as i8;", "let copylen_code_delta = (copylen as i32 - copylen_code as i32) as i8;", False),
     ("C18v", "C18vGen", "src/enc/command.rs", "            (self.dist_prefix_ & 0x3ff) == 0,\n            &mut self.cmd_prefix_,", "            (self.dist_prefix_ & 0x3ff) != 0,\n            &mut self.cmd_prefix_,", False),
